@@ -372,6 +372,15 @@ def apply_tl(W, op):
         if op[1] == "empty":
             t = cur.new_tree()
             W.track(t)
+        elif op[1].startswith("seed:"):
+            # new_tree(seed_node=<a structure built elsewhere>): the nodes carry taxa of another namespace; the new tree is a
+            # member of the list, so they must become members of the list's namespace (the very same Taxon objects: nothing
+            # says they are replaced)
+            src = W.foreign_tree(op[1][5:])
+            root = src._seed_node
+            t = cur.new_tree(seed_node=root)
+            W.track(t, labels=N.tree_labels(src), unified=False, keep_taxa=True)
+            del W.recs[id(src)]   # the source tree object gave its structure away
         else:
             src = W.foreign_tree(op[1])
             t = cur.new_tree(src)
@@ -1002,6 +1011,8 @@ def tl_alphabet(cs, small=False):
     ops.append(["new_tree", "empty"])
     for k in ("overlap", "casevar", "native", "duplabel"):
         ops.append(["new_tree", k])
+    for k in ("overlap", "disjoint", "native"):
+        ops.append(["new_tree", "seed:" + k])
     for n in ("empty", "overlap", "cs-flip", "own"):
         ops.append(["migrate", n])
         ops.append(["clone", n])
